@@ -1,6 +1,9 @@
 #!/bin/bash
 # dev aid: run every seeded change against its property's quick check, write seeded/RESULTS.md
 cd /verif
+# the pinned suite is run on every change first, eight at a time, in scratch worktrees
+export SEEDCONFIRM_DIR=${SEEDCONFIRM_DIR:-/tmp/seedconfirm-status}
+ls -d seeded/C*-m* | xargs -P 8 -I{} tools/seedconfirm.sh {} "$SEEDCONFIRM_DIR" > /tmp/seedconfirm.log 2>&1
 out=seeded/RESULTS.md
 echo "# Seeded changes vs checks (quick tier, VERIF_SEED=1)" > $out
 echo >> $out
@@ -15,3 +18,15 @@ for d in seeded/C*-m*; do
   wall=$(echo "$line" | sed -n 's/.*wall=\([0-9a-z]*\).*/\1/p')
   echo "| $(basename $d) | $id | $suite | ${viol:-n/a} | ${wall:-} |" >> $out
 done
+# changes that belong to one property's text but are observed by another property's check
+if [ -f seeded/ALSO.txt ]; then
+  while read -r name id; do
+    [ -z "$name" ] && continue
+    line=$(tools/seedrun.sh seeded/$name $id quick | tail -1)
+    echo "$line"
+    suite=$(echo "$line" | sed -n 's/.*suite=\([a-zA-Z]*\).*/\1/p')
+    viol=$(echo "$line" | sed -n 's/.*violations=\([0-9]*\).*/\1/p')
+    wall=$(echo "$line" | sed -n 's/.*wall=\([0-9a-z]*\).*/\1/p')
+    echo "| $name | $id | $suite | ${viol:-n/a} | ${wall:-} |" >> $out
+  done < seeded/ALSO.txt
+fi
